@@ -264,6 +264,7 @@ inductive Op
   | link2 (r : Nat)
   | canon (r : Nat)
   | chopen (r : Nat) (via : Nat)
+  | premd (r : Nat)
   | plainch
   | send (c : Nat)
   | recv (c : Nat) (ph : Nat) (p : Pkt)
@@ -289,6 +290,8 @@ def handshake (ra : Ra) (ph : Nat) (p : Pkt) : Ra × Res :=
     | some e => (ra, .rerr e)
     | none =>
       if d.gi.denom.isSet && !d.md.ibcOk then (ra, .rerr .ibcDenom)
+      -- `CreateDenomMetadata`: ErrAlreadyExists when the bank already has metadata for the rollapp's IBC denom
+      else if d.gi.denom.isSet && ra.md then (ra, .rerr .mdExists)
       else
         match credit d.gi.accounts ra.bal with
         | none => (ra, .rerr .credit)
@@ -451,6 +454,18 @@ def stepChopen (s : St) (r : Nat) (via : Nat) : St × Res :=
         ({ s1 with chans := s1.chans ++ [(s.nextChan, .canon r)], nextChan := s.nextChan + 1 }, .ok)
     else ({ s with chans := s.chans ++ [(s.nextChan, .second r)], nextChan := s.nextChan + 1 }, .ok)
 
+/-- governance registers bank metadata for the IBC denom of the rollapp's native denom on its recorded
+    canonical channel (`CreateDenomMetadataProposal` → `Keeper.CreateDenomMetadata`) — outside the
+    handshake.  Defined for a rollapp with a recorded canonical channel and a native denom (otherwise
+    there is no such IBC denom); refused (`ErrAlreadyExists`) when the metadata exists. -/
+def stepPremd (s : St) (r : Nat) : St × Res :=
+  match getRa s r with
+  | none => (s, .err)
+  | some ra =>
+    if ra.chan.isNone || !ra.gi.denom.isSet then (s, .err)
+    else if ra.md then (s, .err)
+    else (setRa s { ra with md := true }, .ok)
+
 /-- `MsgTransfer` from the hub: `ICS4Wrapper.transferAllowed`.  On a channel over the canonical client
     of `r` that is not the recorded canonical channel (`second`) `GetRollappByPortChan` fails with an
     internal error (no canonical channel recorded) or an invalid-argument error (another channel is
@@ -495,6 +510,7 @@ def step (s : St) : Op → St × Res
   | .link2 r => stepLink2 s r
   | .canon r => stepCanon s r
   | .chopen r via => stepChopen s r via
+  | .premd r => stepPremd s r
   | .plainch => ({ s with chans := s.chans ++ [(s.nextChan, .plain)], nextChan := s.nextChan + 1 }, .ok)
   | .send c => stepSend s c
   | .recv c ph p => stepRecv s c ph p
